@@ -332,6 +332,8 @@ impl World {
         }
         self.sh.arena_mut(a).resurrected.clear();
         let rt = &mut self.rt[a as usize];
+        rt.up_stored.clear();
+        rt.adopted_prev = std::mem::take(&mut rt.adopted_cur);
         rt.expect_marking = false;
         rt.neg_adjust = false;
         rt.pacing_changed = false;
